@@ -97,7 +97,7 @@ def make_app(world, log, hooks=None):
             hdrs = [("Content-Type", "application/octet-stream"), ("X-Req", "%d-%d" % (cid, idx))]
             if k == "raise0":
                 raise apps.AppError("app-failure-%d-%d" % (cid, idx))
-            if k in ("cl", "chunks", "write", "gen", "fw", "short", "raise1"):
+            if k in ("cl", "chunks", "write", "gen", "fw", "short", "raise1", "stream"):
                 hdrs.append(("Content-Length", str(n)))
             if environ["REQUEST_METHOD"] == "HEAD":
                 start_response("200 OK", hdrs)
@@ -116,6 +116,19 @@ def make_app(world, log, hooks=None):
             if k == "fw":
                 start_response("200 OK", hdrs)
                 return environ["wsgi.file_wrapper"](io.BytesIO(payload))
+            if k == "stream":
+                # write everything, then wait until the client has really
+                # received it (a streaming application that depends on its
+                # output being delivered while the request is still running)
+                wr = start_response("200 OK", hdrs)
+                for i in range(0, len(payload), w):
+                    wr(payload[i : i + w])
+                tail = payload[-8:]
+                conn = world.net.conns[cid]
+                log.add(world, cid, idx, "stream-wait")
+                world.wait_until(lambda: tail in conn.client_received or conn.server_closed or conn.client_closed)
+                log.add(world, cid, idx, "stream-acked")
+                return []
             if k == "short":
                 start_response("200 OK", hdrs)
                 return [payload[: max(0, n - 3)]]
